@@ -17,6 +17,8 @@ enum Probe {
     KeptReceiver(OsIpcReceiver),
     /// we attached a receiver of a fresh channel and kept its sender
     KeptSender(OsIpcSender),
+    /// we attached one more clone of the sender of `shared` (every clone shares one descriptor)
+    Shared,
 }
 
 fn region_bytes(case: u64, k: usize) -> Vec<u8> {
@@ -85,7 +87,14 @@ fn run_case(
     let mut regions = Vec::new();
     let mut probes = Vec::new();
     let mut region_expect = Vec::new();
+    // mix 4: every attachment is a clone of one and the same sender (one descriptor, attached natt times)
+    let shared = platform::channel().expect("channel");
     for k in 0..natt {
+        if mix == 4 {
+            channels.push(OsIpcChannel::Sender(shared.0.clone()));
+            probes.push(Probe::Shared);
+            continue;
+        }
         let kind = match mix {
             0 => 0,
             1 => 2,
@@ -233,6 +242,11 @@ fn run_case(
                             let r = rch[k].to_receiver();
                             s.send(&nonce, vec![], vec![]).is_ok()
                                 && matches!(r.try_recv(), Ok((d, _, _)) if d == nonce)
+                        },
+                        Probe::Shared => {
+                            let s = rch[k].to_sender();
+                            s.send(&nonce, vec![], vec![]).is_ok()
+                                && matches!(shared.1.try_recv(), Ok((d, _, _)) if d == nonce)
                         },
                     };
                     if !ok {
